@@ -330,6 +330,43 @@ def det_expr(M):
 
 
 @register
+class FlowFieldsCurlWrapper:
+    """FlowFields.curl(): the curl of the field with respect to the axes its vectors are expressed in (grid indices, either
+    normalised cube, world units): on a field u(x) = A x + b with x measured in those units it is A[1,0] - A[0,1] (2-D)."""
+
+    target = "deepali.data.flow:FlowFields.curl"
+    properties = ("C12", "C10")
+
+    def cases(self, tier):
+        for axes in ("grid", "cube", "cube_corners", "world"):
+            yield {"axes": axes}
+
+    def run(self, case, K):
+        from deepali.core.grid import Axes, Grid
+        from deepali.data import FlowFields
+
+        D = 2
+        shape = SHAPES[D]
+        size = shape[::-1]
+        s = [K.real(f"s{i}", draw=(Fraction(1, 2), 3)) for i in range(D)]
+        for v in s:
+            K.assume(E.lt(0, v))
+        g = Grid(size=size, spacing=K.tensor(s))
+        ax = case["axes"]
+        unit = {"grid": [E.ONE] * D, "world": s, "cube": [E.const(Fraction(2, n)) for n in size], "cube_corners": [E.const(Fraction(2, n - 1)) for n in size]}[ax]
+        N = 2
+        vals, A, b = affine_flow_field(K, N, D, shape, [unit] * N, "u")
+        f = FlowFields(K.tensor(vals), g, Axes(ax))
+        res = K.call(f.curl, mode="forward_central_backward")
+        if not K.ensure_returns(res, text=Q12 + " [FlowFields.curl]"):
+            return
+        got = K.val(res.tensor() if hasattr(res, "tensor") else res)
+        for n in range(N):
+            want = E.sub(A[n][1, 0], A[n][0, 1])
+            K.ensure_eq(f"curl[{n}]", got[n, 0], np.full(shape, want, dtype=object), text=Q12 + f" [curl of an affine field given in {ax} units]")
+
+
+@register
 class FlowJacobian:
     target = "deepali.core.flow:jacobian_det"
     properties = ("C12", "C15")
